@@ -339,9 +339,9 @@ func genC20HtmlNet(r *rng, n int, w *bufio.Writer) {
 	seq := 0
 	// fetch returns the canonical answer of one delivery, "" if the fetch failed below the proxy (not an answer)
 	fetch := func(host string, d *c20Delivery) (ans string, out []byte) {
+		origin.mu.Lock()
 		seq++
 		path := fmt.Sprintf("/b/%d", seq)
-		origin.mu.Lock()
 		origin.plans[path] = d
 		origin.mu.Unlock()
 		defer func() {
@@ -403,33 +403,77 @@ func genC20HtmlNet(r *rng, n int, w *bufio.Writer) {
 		tags[h] = tag
 	}
 	window := proxy.VerifHeadBufferSize
-	for i := 0; i < n; i++ {
-		body, first, note := c20NetBody(r, window)
-		host := pick(r, hosts)
-		d := &c20Delivery{wire: body}
-		useGz := r.chance(1, 3)
-		if useGz {
-			d.wire = gz(body)
-			d.ce = "gzip"
-		} else if r.chance(1, 5) {
-			d.ce = "identity"
-		}
-		d.parts, d.desc = c20Parts(r, len(d.wire), first, !useGz)
-		d.pause = pick(r, []time.Duration{0, 300 * time.Microsecond, 300 * time.Microsecond, time.Millisecond, 3 * time.Millisecond})
-		if len(d.parts) > 24 && d.pause > 300*time.Microsecond {
-			d.pause = 300 * time.Microsecond
-		}
-		d.framing = pick(r, []int{0, 0, 1, 2, 2})
-		d.headSolo = r.chance(1, 2)
-		ans, _ := fetch(host, d)
-		if ans == "" {
+	type job struct {
+		body   []byte
+		host   string
+		useGz  bool
+		d      *c20Delivery
+		note   string
+		ans    string
+		others int
+	}
+	dropped := 0
+	defer func() {
+		// single lost connections are the environment's business; many are not
+		fmt.Fprintf(w, "assert c20.net.delivered %d %d = %s ## %d of %d fetches through the real proxy ended without an HTTP response (two attempts each)\n",
+			n, dropped, wbool(dropped*5 <= n), dropped, n)
+	}()
+	emit := func(i int, j *job) {
+		if j.ans == "" {
+			dropped++
 			fmt.Fprintf(os.Stderr, "c20htmlnet: delivery %d dropped (no connection)\n", i)
 
-			continue
+			return
 		}
-		fmt.Fprintf(w, "c20.html %s %s %s = %s ## through the real proxy from %s: len=%d gzip=%v Content-Encoding=%q %s; delivery: %s (%d writes), pause %v, framing %s, header block %s\n",
-			wb(string(body)), wbool(useGz), wb(tags[host]), ans, host, len(body), useGz, d.ce, note, d.desc, len(d.parts), d.pause,
-			[]string{"Content-Length", "connection close", "chunked"}[d.framing], map[bool]string{true: "on its own", false: "with the first write"}[d.headSolo])
+		conc := ""
+		if j.others > 0 {
+			conc = fmt.Sprintf("; %d other responses in flight through the same proxy", j.others)
+		}
+		fmt.Fprintf(w, "c20.html %s %s %s = %s ## through the real proxy from %s: len=%d gzip=%v Content-Encoding=%q %s; delivery: %s (%d writes), pause %v, framing %s, header block %s%s\n",
+			wb(string(j.body)), wbool(j.useGz), wb(tags[j.host]), j.ans, j.host, len(j.body), j.useGz, j.d.ce, j.note, j.d.desc, len(j.d.parts), j.d.pause,
+			[]string{"Content-Length", "connection close", "chunked"}[j.d.framing], map[bool]string{true: "on its own", false: "with the first write"}[j.d.headSolo], conc)
+	}
+	for i := 0; i < n; {
+		// one delivery at a time, or (every fourth group) three at once: each answer must still be its own
+		g := 1
+		if r.chance(1, 4) && i+3 <= n {
+			g = 3
+		}
+		jobs := make([]*job, g)
+		for k := range jobs {
+			body, first, note := c20NetBody(r, window)
+			j := &job{body: body, host: pick(r, hosts), note: note, others: g - 1}
+			d := &c20Delivery{wire: body}
+			j.useGz = r.chance(1, 3)
+			if j.useGz {
+				d.wire = gz(body)
+				d.ce = "gzip"
+			} else if r.chance(1, 5) {
+				d.ce = "identity"
+			}
+			d.parts, d.desc = c20Parts(r, len(d.wire), first, !j.useGz)
+			d.pause = pick(r, []time.Duration{0, 300 * time.Microsecond, 300 * time.Microsecond, time.Millisecond, 3 * time.Millisecond})
+			if len(d.parts) > 24 && d.pause > 300*time.Microsecond {
+				d.pause = 300 * time.Microsecond
+			}
+			d.framing = pick(r, []int{0, 0, 1, 2, 2})
+			d.headSolo = r.chance(1, 2)
+			j.d = d
+			jobs[k] = j
+		}
+		var wg sync.WaitGroup
+		for _, j := range jobs {
+			wg.Add(1)
+			go func(j *job) {
+				defer wg.Done()
+				j.ans, _ = fetch(j.host, j.d)
+			}(j)
+		}
+		wg.Wait()
+		for k, j := range jobs {
+			emit(i+k, j)
+		}
+		i += g
 	}
 }
 
